@@ -341,12 +341,16 @@ func (p *Project) transformRename(r *Rename) Query {
 	var newFrom, newTo []string
 	from := r.from
 	to := r.to
+	// work backwards keeping track of which names are needed at that point
+	// (a name can be reused, e.g. rename b to e, e to x, a to e)
+	needed := slices.Clone(p.columns)
 	for i := len(to) - 1; i >= 0; i-- {
-		ck := to[i]
-		if p.unique {
-			ck = strings.TrimSuffix(to[i], "_deps")
-		}
-		if slices.Contains(p.columns, ck) || slices.Contains(newFrom, ck) {
+		if j := slices.Index(needed, to[i]); j != -1 {
+			needed[j] = from[i]
+			newFrom = append(newFrom, from[i])
+			newTo = append(newTo, to[i])
+		} else if p.unique && strings.HasSuffix(to[i], "_deps") &&
+			slices.Contains(needed, strings.TrimSuffix(to[i], "_deps")) {
 			newFrom = append(newFrom, from[i])
 			newTo = append(newTo, to[i])
 		}
